@@ -6,7 +6,7 @@ import Mahotas.Proofs.C04Term
 import Mahotas.Proofs.C04Lines
 import Mahotas.Proofs.C04Order
 import Mahotas.Proofs.C04LinesExact
-import Mahotas.Proofs.C08Kernels
+import Mahotas.Proofs.C04View
 open Mahotas Mahotas.C04
 
 /-- **C04-T3 (the kernel is the specified flooding).** For every surface (any rank, shape, values),
@@ -331,22 +331,23 @@ for a C-array), the structuring element through its own iterator. For EVERY base
 (negative, zero, transposed, sliced — `View.WF` only asks for one stride per axis, and that an array flagged as a C-array
 has C strides) of the three arrays and every memory content: labels and lines of the view kernel are exactly the labels
 and lines of the SPECIFICATION flooding (`cwatershedSpec`: priority queue on (cost, insertion index) over coordinates)
-run on the logical contents `toImg mem view` (element `k` = memory at the address of the `k`-th position in C order).
+run on the logical contents `logicalImg mem view` (element `k` = memory at the address of the `k`-th position in C order;
+`logicalImg` is `C08.toImg`, by `rfl`).
 Hence the result depends on the three arguments only through their logical contents. Hypotheses: the markers have
 the surface's shape and the element its rank (both enforced by `morph.py`). -/
 theorem C04_view_eq_spec (mS mM mB : Int → Int) (vS vM vB : View) (wS : vS.WF) (wM : vM.WF) (wB : vB.WF)
     (hm : vM.shape = vS.shape) (hb : vB.shape.length = vS.shape.length) :
     (cwatershedView mS vS mM vM mB vB).res =
-      (cwatershedSpec (toImg mS vS) (toImg mM vM) vB.shape (logical mB vB).toArray).label.data ∧
+      (cwatershedSpec (logicalImg mS vS) (logicalImg mM vM) vB.shape (logical mB vB).toArray).label.data ∧
     (cwatershedView mS vS mM vM mB vB).lines =
-      (cwatershedSpec (toImg mS vS) (toImg mM vM) vB.shape (logical mB vB).toArray).lines.data ∧
+      (cwatershedSpec (logicalImg mS vS) (logicalImg mM vM) vB.shape (logical mB vB).toArray).lines.data ∧
     cwatershedView mS vS mM vM mB vB =
-      cwatershedModel (toImg mS vS) (toImg mM vM) vB.shape (logical mB vB).toArray := by
+      cwatershedModel (logicalImg mS vS) (logicalImg mM vM) vB.shape (logical mB vB).toArray := by
   have e : cwatershedView mS vS mM vM mB vB =
-      cwatershedModel (toImg mS vS) (toImg mM vM) vB.shape (logical mB vB).toArray := by
+      cwatershedModel (logicalImg mS vS) (logicalImg mM vM) vB.shape (logical mB vB).toArray := by
     unfold cwatershedView
-    rw [flatImg_eq _ _ wS, flatImg_eq _ _ wM, filtVals_eq _ _ wB]
-  have r := C04_model_refines_flood (toImg mS vS) (toImg mM vM) vB.shape (logical mB vB).toArray hm hb
+    rw [flatImg_eq_logicalImg _ _ wS, flatImg_eq_logicalImg _ _ wM, filtVals_eq_logical _ _ wB]
+  have r := C04_model_refines_flood (logicalImg mS vS) (logicalImg mM vM) vB.shape (logical mB vB).toArray hm hb
   exact ⟨by rw [e, r.1], by rw [e, r.2.1], e⟩
 
 open Mahotas.C08 in
@@ -359,19 +360,19 @@ is assumed about the C++: `MarkerInfo<T>::operator<` on the non-NaN values of `T
 theorem C04_view_layout_dtype_independent (mS₁ mS₂ mM₁ mM₂ mB₁ mB₂ : Int → Int) (vS₁ vS₂ vM₁ vM₂ vB₁ vB₂ : View)
     (wS₁ : vS₁.WF) (wS₂ : vS₂.WF) (wM₁ : vM₁.WF) (wM₂ : vM₂.WF) (wB₁ : vB₁.WF) (wB₂ : vB₂.WF)
     (hm : vM₁.shape = vS₁.shape) (hb : vB₁.shape.length = vS₁.shape.length) (hs : vS₂.shape = vS₁.shape)
-    (hM : toImg mM₂ vM₂ = toImg mM₁ vM₁) (hB : vB₂.shape = vB₁.shape ∧ logical mB₂ vB₂ = logical mB₁ vB₁)
+    (hM : logicalImg mM₂ vM₂ = logicalImg mM₁ vM₁) (hB : vB₂.shape = vB₁.shape ∧ logical mB₂ vB₂ = logical mB₁ vB₁)
     (hord : ∀ i j, i < shapeSize vS₁.shape → j < shapeSize vS₁.shape →
-      ((toImg mS₁ vS₁).data.getD i 0 < (toImg mS₁ vS₁).data.getD j 0 ↔
-        (toImg mS₂ vS₂).data.getD i 0 < (toImg mS₂ vS₂).data.getD j 0)) :
+      ((logicalImg mS₁ vS₁).data.getD i 0 < (logicalImg mS₁ vS₁).data.getD j 0 ↔
+        (logicalImg mS₂ vS₂).data.getD i 0 < (logicalImg mS₂ vS₂).data.getD j 0)) :
     (cwatershedView mS₂ vS₂ mM₂ vM₂ mB₂ vB₂).res = (cwatershedView mS₁ vS₁ mM₁ vM₁ mB₁ vB₁).res ∧
     (cwatershedView mS₂ vS₂ mM₂ vM₂ mB₂ vB₂).lines = (cwatershedView mS₁ vS₁ mM₁ vM₁ mB₁ vB₁).lines := by
   have hm₂ : vM₂.shape = vS₂.shape := by
-    have : (toImg mM₂ vM₂).shape = (toImg mM₁ vM₁).shape := by rw [hM]
+    have : (logicalImg mM₂ vM₂).shape = (logicalImg mM₁ vM₁).shape := by rw [hM]
     rw [hs, ← hm]; exact this
   have hb₂ : vB₂.shape.length = vS₂.shape.length := by rw [hB.1, hs]; exact hb
   obtain ⟨a1, a2, _⟩ := C04_view_eq_spec mS₁ mM₁ mB₁ vS₁ vM₁ vB₁ wS₁ wM₁ wB₁ hm hb
   obtain ⟨b1, b2, _⟩ := C04_view_eq_spec mS₂ mM₂ mB₂ vS₂ vM₂ vB₂ wS₂ wM₂ wB₂ hm₂ hb₂
-  obtain ⟨o1, o2⟩ := C04_spec_order_invariant (toImg mS₁ vS₁) (toImg mS₂ vS₂) (toImg mM₁ vM₁) vB₁.shape
+  obtain ⟨o1, o2⟩ := C04_spec_order_invariant (logicalImg mS₁ vS₁) (logicalImg mS₂ vS₂) (logicalImg mM₁ vM₁) vB₁.shape
     (logical mB₁ vB₁).toArray hs hord
   rw [a1, a2, b1, b2, hM, hB.1, hB.2, o1, o2]
   exact ⟨rfl, rfl⟩
@@ -414,7 +415,7 @@ example :
     let vS : C08.View := { base := 0, shape := [2, 3], strides := [1, 2] }
     let vM : C08.View := { base := 5, shape := [2, 3], strides := [-3, -1] }
     let vB : C08.View := { base := 0, shape := [3, 3], strides := [3, 1], carray := true }
-    (C08.toImg mS vS).data = #[0, 1, 2, 1, 0, 1] ∧ (C08.toImg mM vM).data = #[1, 0, 0, 0, 0, 2] ∧
+    (logicalImg mS vS).data = #[0, 1, 2, 1, 0, 1] ∧ (logicalImg mM vM).data = #[1, 0, 0, 0, 0, 2] ∧
     (C08.cwatershedView mS vS mM vM mB vB).res = #[1, 1, 2, 1, 2, 2] ∧
     (C08.cwatershedView mS vS mM vM mB vB).lines = #[false, true, true, true, false, false] := by
   decide +kernel
@@ -423,7 +424,7 @@ example (mS mM mB : Int → Int) :
     let vM : C08.View := { base := 5, shape := [2, 3], strides := [-3, -1] }
     let vB : C08.View := { base := 0, shape := [3, 3], strides := [3, 1], carray := true }
     (C08.cwatershedView mS vS mM vM mB vB).res =
-      (cwatershedSpec (C08.toImg mS vS) (C08.toImg mM vM) vB.shape (C08.logical mB vB).toArray).label.data := by
+      (cwatershedSpec (logicalImg mS vS) (logicalImg mM vM) vB.shape (C08.logical mB vB).toArray).label.data := by
   intro vS vM vB
   have wS : vS.WF := ⟨rfl, by intro h; cases h⟩
   have wM : vM.WF := ⟨rfl, by intro h; cases h⟩
